@@ -43,7 +43,7 @@ ASSUMPTIONS = [
     'a failure is attributed to an open known finding only if (a) the request structurally carries that trigger, (b) the failing clauses are within the finding\'s '
     'signature and (c) a twin with only that trigger neutralised no longer shows those failures; remaining/new failures are explained recursively the same way or stay violations',
 ]
-REQUIRED = ['redirect_for_a_target_not_in_normal_form', 'request_following_such_a_redirect', 'framing_length', 'framing_chunked', 'framing_close', 'framing_none_head', 'framing_none_status', 'chunked_multi_chunk',
+REQUIRED = ['connection_option_not_in_lower_case', 'redirect_for_a_target_not_in_normal_form', 'request_following_such_a_redirect', 'framing_length', 'framing_chunked', 'framing_close', 'framing_none_head', 'framing_none_status', 'chunked_multi_chunk',
             'stream_events', 'body_gt_64k', 'nonascii_str_body', 'generator_empty_item', 'file_body_bytesio', 'file_body_real', 'file_body_short_reads',
             'keepalive_further_request', 'keepalive_http10', 'close_announced_and_closed', 'kept_open_unannounced',
             'reconnect_after_close', 'head_requests', 'post_requests', 'error_page_response', 'app_content_length',
@@ -593,7 +593,10 @@ def judge_request(case, idx, r, o, marks):
         else:
             OK('CLOSE_IFF_ANNOUNCED')
             marks.add('close_announced_and_closed' if closed else 'kept_open_unannounced')
-        wants_close = (r['proto'] == '1.1' and r['conn'] == 'close') or (r['proto'] == '1.0' and r['conn'] != 'keep-alive')
+        conn = (r['conn'] or '').lower()        # connection options are case-insensitive
+        if r['conn'] and r['conn'] != conn:
+            marks.add('connection_option_not_in_lower_case')
+        wants_close = (r['proto'] == '1.1' and conn == 'close') or (r['proto'] == '1.0' and conn != 'keep-alive')
         if wants_close:
             if announced:
                 OK('CLOSE_WISH')
@@ -1051,6 +1054,12 @@ def corpus():
     add('304-empty-gen', R(status=304, body=B('gen', items=[]), how='set'), R(body=S))
     add('101-empty', R(status=101, body=B('str', '')))
     add('conn-close-11', R(conn='close', body=S), R(body=S))
+    for sp in ('Close', 'CLOSE', 'cLoSe'):
+        add('conn-%s-11' % sp, R(conn=sp, body=S), R(body=S))
+        add('conn-%s-11-gen-head' % sp, R(body=G, how='set'), R(method='HEAD', conn=sp, body=S), R(body=S))
+    for sp in ('Keep-Alive', 'KEEP-ALIVE', 'Keep-alive'):
+        add('conn-%s-10' % sp, R(proto='1.0', conn=sp, body=S), R(proto='1.0', conn=sp, body=G, how='set'), R(proto='1.0', body=S))
+        add('conn-%s-11' % sp, R(conn=sp, body=S), R(conn='Close', body=S), R(body=S))
     add('post-seq', R(method='POST', body=S), R(method='POST', body=G, how='set'), R(method='POST', conn='close', body=S))
     add('push-empty', R(body=B('push', items=[]), how='set'), R(body=S))
     # a request target that is not in normal form is answered by the server itself with a redirect; what follows on the connection (if the
@@ -1095,6 +1104,8 @@ def gen_request(rng, keepalive_bias):
         proto, conn = rng.choice([('1.1', None), ('1.1', None), ('1.1', 'keep-alive'), ('1.0', 'keep-alive')])
     else:
         proto, conn = rng.choice([('1.1', 'close'), ('1.0', None), ('1.0', 'close'), ('1.1', None)])
+    if conn and rng.random() < 0.25:
+        conn = rng.choice([conn.upper(), conn.title(), conn.capitalize()])
     status = rng.choice([200, 200, 200, 201, 204, 304, 404, 500])
     x = rng.random()
     if rng.random() < 0.06:
